@@ -1,5 +1,7 @@
-import json,jsonschema,glob,sys
-jsonschema.validate(json.load(open('/verif/MANIFEST.json')), json.load(open('/root/.vp/MANIFEST.schema.json')))
-for f in glob.glob('/verif/evidence/*.json'):
+import json, jsonschema, glob, os
+ROOT = os.path.dirname(os.path.dirname(os.path.abspath(__file__)))
+jsonschema.validate(json.load(open(os.path.join(ROOT, 'MANIFEST.json'))), json.load(open('/root/.vp/MANIFEST.schema.json')))
+claimed = {c['property_id'] for c in json.load(open(os.path.join(ROOT, 'MANIFEST.json')))['checks']}
+for f in sorted(glob.glob(os.path.join(ROOT, 'evidence', '*.json'))):
     jsonschema.validate(json.load(open(f)), json.load(open('/root/.vp/EVIDENCE.schema.json')))
-print('valid')
+print('valid; claimed', sorted(claimed))
